@@ -205,6 +205,7 @@ func genCopyCase(e *core.Env, o copyGenOpts) *copyCase {
 		seenReg[r] = true
 		r.K.Referrers = e.Choose("gen", 2, "refapi") == 0
 		r.K.Mount = e.Choose("gen", 3, "mount")
+		r.K.MountNoLocation = e.Choose("gen", 5, "mountnoloc") == 4
 		r.K.NoHeadDigest = e.Choose("gen", 4, "noheaddigest") == 3
 		r.K.TagPage = []int{0, 1, 2}[e.Choose("gen", 3, "tagpage")]
 		r.K.ReferrersPage = []int{0, 1}[e.Choose("gen", 2, "refpage")]
